@@ -123,7 +123,7 @@ def armSoundIn (s : Scalar) (k : Kind) (a : Action) : Bool :=
      | .int, .i32 => fitsIn k .i32
      | .int64, .i64 => fitsIn k .i64
      | _, _ => false)
-  | .convCheckedKeep t => (s == .int && t == .i32 && k.isFloat)
+  | .convCheckedKeep t => (s == .int && t == .i32 && (k.isFloat || k.isInt))
   | .fmtInt => k.isInt && s == .id && fitsIn k .i64
   | .parseIntKeep t => k == .str && s == .int64 && t == .i64
   | .timeOfInt => k.isInt && s == .time
